@@ -124,8 +124,10 @@ func (evpool *Pool) Update(state sm.State, ev types.EvidenceList) {
 	evpool.markEvidenceAsCommitted(ev)
 
 	// prune pending evidence when it has expired. This also updates when the next evidence will expire
-	if evpool.Size() > 0 && state.LastBlockHeight > evpool.pruningHeight &&
-		state.LastBlockTime.After(evpool.pruningTime) {
+	// (The scan stops at the first pending item that has not expired, so doing it at every
+	// height is cheap. Skipping it until a height/time computed at the previous prune missed
+	// evidence that was admitted afterwards but expires earlier.)
+	if evpool.Size() > 0 {
 		evpool.pruningHeight, evpool.pruningTime = evpool.removeExpiredPendingEvidence()
 	}
 }
